@@ -17,7 +17,8 @@
 (***************************************************************************)
 EXTENDS Naturals, Sequences, TLC
 
-CONSTANTS MaxSent, MaxWrite, Bufs
+CONSTANTS MaxSent, MaxWrite, Bufs,
+          Delays    \* classes of (virtual) time that may pass between two operations once the stream is in use
 
 VARIABLES cs, sc,           \* the two byte streams: handshake tokens, data units, FIN
           cw,               \* client: write half of the handshake done
@@ -121,7 +122,16 @@ SCloseWrite ==
   /\ op' = [name |-> "sclosewrite"]
   /\ UNCHANGED <<cs, cw, crh, crd, sst, csent, ssent, cdel, sdel, cfin, ceof, seof>>
 
-Next == \/ \E k \in 0..MaxWrite : CWrite(k)
+\* TIME passes between two operations: nothing changes - that is the point.  The application set no deadline, so
+\* whatever the peer writes after the delay is still delivered and no read fails with a deadline error, however
+\* the delay relates to the stack's own timeouts (negotiation timeout, keep-alives, idle timeouts).
+Wait(c) ==
+  /\ cw                                  \* (after the first client operation: CloseWrite, Write or a started Read)
+  /\ op' = [name |-> "wait", c |-> c, afterclose |-> cfin, readpending |-> (crd > 0)]
+  /\ UNCHANGED View
+
+Next == \/ \E c \in Delays : Wait(c)
+        \/ \E k \in 0..MaxWrite : CWrite(k)
         \/ \E b \in Bufs : CReadBegin(b)
         \/ CTok \/ CReadEnd \/ CCloseWrite \/ SNeg
         \/ \E k \in 1..MaxWrite : SWrite(k)
